@@ -309,6 +309,12 @@ class SharedMemoryManager:
         return memory
 
     @classmethod
+    def remove_shared_memory(cls, node_name: str, key: Optional[int] = None) -> None:
+        """Forget the shared memory for (node, key), if any. Whoever obtained the
+        memory earlier keeps their reference to it."""
+        cls._MEMORIES.pop((node_name, key), None)
+
+    @classmethod
     def reset_memories(cls) -> None:
         for key in list(cls._MEMORIES.keys()):
             cls._MEMORIES.pop(key)
